@@ -159,7 +159,213 @@ func ruleHNSWLinkEntry(r *Run, p string) {
 		if n == 0 {
 			r.Bad(p+".ENTRY", "hnsw:flush:reelect", w.Pos(body.Pos())+" "+w.Name(body), "flush never re-elects the entry point")
 		}
+		ruleHNSWReelectLevel(r, p+".ENTRY", body)
 	}
+}
+
+// ruleHNSWReelectLevel: a re-elected entry point and maxLevel move together. Every store entryPoint = id(n) either sits
+// under `n.Level == maxLevel` (same level: maxLevel stays right), or is one half of an argmax over the levels — guarded by
+// `n.Level > best`, in the block that also sets best = n.Level — whose result is stored into maxLevel when some node was
+// found (best ≥ 0) and replaced by the empty state (−1) otherwise. And the running maximum never moves without the entry.
+func ruleHNSWReelectLevel(r *Run, rule string, body *ssa.Function) {
+	w := r.W
+	c := NewCanon(w)
+	name := w.Name(body)
+	levelOf := func(idv ssa.Value) string {
+		s := c.S(idv) // get:id(X.VectorNode) / get:id(X)
+		s = strings.TrimSuffix(strings.TrimPrefix(s, "get:id("), ")")
+		s = strings.TrimSuffix(s, ".VectorNode")
+		return s + ".Level"
+	}
+	var bests []*ssa.Phi
+	n := 0
+	allInstrs(body, func(in ssa.Instruction) {
+		st, ok := in.(*ssa.Store)
+		if !ok || c.S(st.Addr) != "P0.entryPoint" || isZeroConst(st.Val) {
+			return
+		}
+		n++
+		lv := levelOf(st.Val)
+		site := w.InstrPos(st) + " " + name
+		sameLevel, argmax := false, false
+		var best *ssa.Phi
+		for b := st.Block(); b != nil; b = b.Idom() {
+			d := b.Idom()
+			if d == nil {
+				break
+			}
+			iff, isIf := d.Instrs[len(d.Instrs)-1].(*ssa.If)
+			if !isIf || !(d.Succs[0] == b || d.Succs[0].Dominates(b)) {
+				continue
+			}
+			bo, isB := iff.Cond.(*ssa.BinOp)
+			if !isB {
+				continue
+			}
+			l, rr := c.S(bo.X), c.S(bo.Y)
+			if bo.Op == token.EQL && ((l == lv && rr == "P0.maxLevel") || (rr == lv && l == "P0.maxLevel")) {
+				sameLevel = true
+			}
+			if bo.Op == token.GTR && l == lv {
+				if ph, isPhi := bo.Y.(*ssa.Phi); isPhi {
+					best = ph
+				}
+			}
+			if bo.Op == token.LSS && rr == lv {
+				if ph, isPhi := bo.X.(*ssa.Phi); isPhi {
+					best = ph
+				}
+			}
+		}
+		if best != nil {
+			// the same block (or one it dominates, before the back edge) hands n.Level to the running maximum
+			for i, e := range best.Edges {
+				pred := best.Block().Preds[i]
+				if c.S(e) == lv && (pred == st.Block() || st.Block().Dominates(pred)) {
+					argmax = true
+				}
+			}
+			if argmax {
+				bests = append(bests, best)
+			}
+		}
+		r.Check(sameLevel || argmax, rule, fmt.Sprintf("hnsw:flush:reelect-level#%d", n), site,
+			"the re-elected entry point is a node of the current top level, or the level-wise best one with its level recorded",
+			"the entry point is moved to "+c.S(st.Val)+" without tying maxLevel to that node's level (neither `Level == maxLevel` nor an argmax that records the level)")
+	})
+	// running maxima found from the other end: a phi fed by some node's Level that reaches a store into maxLevel
+	allInstrs(body, func(in ssa.Instruction) {
+		st, ok := in.(*ssa.Store)
+		if !ok || c.S(st.Addr) != "P0.maxLevel" {
+			return
+		}
+		seen := map[ssa.Value]bool{}
+		var walk func(v ssa.Value, depth int)
+		walk = func(v ssa.Value, depth int) {
+			ph, isPhi := v.(*ssa.Phi)
+			if !isPhi || seen[v] || depth > 4 {
+				return
+			}
+			seen[v] = true
+			fed := false
+			for _, e := range ph.Edges {
+				if strings.HasSuffix(c.S(e), ".Level") {
+					fed = true
+				}
+				walk(e, depth+1)
+			}
+			if fed {
+				dup := false
+				for _, b := range bests {
+					if b == ph {
+						dup = true
+					}
+				}
+				if !dup {
+					bests = append(bests, ph)
+				}
+			}
+		}
+		walk(st.Val, 0)
+	})
+	for i, best := range bests {
+		site := w.InstrPos(best) + " " + name
+		// the maximum never moves without the entry point
+		lonely := ""
+		for j, e := range best.Edges {
+			if e == ssa.Value(best) {
+				continue
+			}
+			if _, isConst := e.(*ssa.Const); isConst {
+				continue
+			}
+			pred := best.Block().Preds[j]
+			has := false
+			for b := pred; b != nil && !has; b = b.Idom() {
+				for _, in := range b.Instrs {
+					if st, ok := in.(*ssa.Store); ok && c.S(st.Addr) == "P0.entryPoint" {
+						has = true
+					}
+				}
+				if b == best.Block() {
+					break
+				}
+			}
+			if !has {
+				lonely = c.S(e)
+			}
+		}
+		r.Check(lonely == "", rule, fmt.Sprintf("hnsw:flush:reelect-coupled#%d", i), site, "the running maximum level only moves together with the entry point", "the running maximum takes "+lonely+" on a path that does not move the entry point: maxLevel and entryPoint end up describing different nodes")
+		// the result reaches maxLevel when a node was found, the empty state otherwise
+		stored, reset := false, false
+		allInstrs(body, func(in ssa.Instruction) {
+			st, ok := in.(*ssa.Store)
+			if !ok || c.S(st.Addr) != "P0.maxLevel" {
+				return
+			}
+			derives := derivesFromValue(st.Val, best, 0) || phiHasEdge(st.Val, best, 3)
+			guardedFound := func(wantFound bool) bool {
+				for b := st.Block(); b != nil; b = b.Idom() {
+					d := b.Idom()
+					if d == nil {
+						return false
+					}
+					iff, isIf := d.Instrs[len(d.Instrs)-1].(*ssa.If)
+					if !isIf {
+						continue
+					}
+					bo, isB := iff.Cond.(*ssa.BinOp)
+					if !isB || !(derivesFromValue(bo.X, best, 0) || phiHasEdge(bo.X, best, 3)) {
+						continue
+					}
+					k, isK := bo.Y.(*ssa.Const)
+					if !isK || k.Value == nil {
+						continue
+					}
+					found := false // does the true branch mean "some node was found"?
+					switch {
+					case bo.Op == token.GEQ && k.Int64() == 0, bo.Op == token.GTR && k.Int64() == -1, bo.Op == token.NEQ && k.Int64() == -1:
+						found = true
+					case bo.Op == token.LSS && k.Int64() == 0, bo.Op == token.LEQ && k.Int64() == -1, bo.Op == token.EQL && k.Int64() == -1:
+						found = false
+					default:
+						continue
+					}
+					onTrue := d.Succs[0] == b || d.Succs[0].Dominates(b)
+					onFalse := d.Succs[1] == b || d.Succs[1].Dominates(b)
+					if (onTrue && found == wantFound) || (onFalse && found != wantFound) {
+						return true
+					}
+				}
+				return false
+			}
+			if derives && guardedFound(true) {
+				stored = true
+			}
+			if k, isK := st.Val.(*ssa.Const); isK && k.Value != nil && k.Int64() == -1 && guardedFound(false) {
+				reset = true
+			}
+		})
+		r.Check(stored && reset, rule, fmt.Sprintf("hnsw:flush:reelect-maxlevel#%d", i), site, "maxLevel becomes the best level found, or −1 (empty index) when no live node is left",
+			fmt.Sprintf("after the search for the best live node maxLevel is not updated on both outcomes (found ⇒ best level: %v, none ⇒ −1: %v)", stored, reset))
+	}
+}
+
+// phiHasEdge: v is a phi (of phis) with from among its operands.
+func phiHasEdge(v, from ssa.Value, depth int) bool {
+	if v == from {
+		return true
+	}
+	ph, ok := v.(*ssa.Phi)
+	if !ok || depth <= 0 {
+		return false
+	}
+	for _, e := range ph.Edges {
+		if e != v && phiHasEdge(e, from, depth-1) {
+			return true
+		}
+	}
+	return false
 }
 
 // guardedByCall: instruction lies in the region selected by a dominating branch on a call condition.
@@ -492,7 +698,29 @@ func ruleProbes(r *Run, p string, k *vecKind) {
 	elemC := c.S(sinks[0].Elem)
 	idxField := indexFieldOf(k.SearchT, k.IndexT)
 	wantPrefix := "P0." + idxField + ".lists["
-	okList := strings.HasPrefix(elemC, wantPrefix) && strings.Contains(elemC, "["+c.S(counter)+"].index]")
+	// the ranking entries {position, distance}: the field names are read off the literal (index/distance, item/score, …)
+	rankIdxF := "index"
+	allInstrs(fn, func(in ssa.Instruction) {
+		st, ok := in.(*ssa.Store)
+		if !ok {
+			return
+		}
+		if f, ok := litFields(st.Val); ok && len(f) == 2 {
+			var iF, dF string
+			for nm, v := range f {
+				if bt, isB := v.Type().Underlying().(*types.Basic); isB && bt.Kind() == types.Int {
+					iF = nm
+				}
+				if isFloat32(v.Type()) && strings.Contains(c.S(v), "Distance.Calculate(") && strings.Contains(c.S(v), ".centroids[") {
+					dF = nm
+				}
+			}
+			if iF != "" && dF != "" {
+				rankIdxF = iF
+			}
+		}
+	})
+	okList := strings.HasPrefix(elemC, wantPrefix) && strings.Contains(elemC, "["+c.S(counter)+"]."+rankIdxF+"]")
 	r.Check(okList, p+".ORD.probe", k.Name+":probe-loop:list", site, "scanned list = lists[ranked[i].index] for the probe counter i", "scanned element is "+short(elemC, 120))
 	// ranked = centroids sorted ascending by distance to the preprocessed query, index field = centroid position
 	okRank := false
@@ -501,9 +729,27 @@ func ruleProbes(r *Run, p string, k *vecKind) {
 		if !ok {
 			return
 		}
-		if f, ok := litFields(st.Val); ok && f["index"] != nil && f["distance"] != nil {
-			ds := c.S(f["distance"])
-			if isRangeIndex(f["index"]) && strings.Contains(ds, "Distance.Calculate(") && strings.Contains(ds, "P0."+idxField+".centroids[range]") && strings.Contains(ds, "Distance.Preprocess(") {
+		if f, ok := litFields(st.Val); ok && len(f) == 2 && f[rankIdxF] != nil {
+			var dv ssa.Value
+			for nm, v := range f {
+				if nm != rankIdxF && isFloat32(v.Type()) {
+					dv = v
+				}
+			}
+			if dv == nil {
+				return
+			}
+			ds := c.S(dv)
+			idxOK := isRangeIndex(f[rankIdxF])
+			if ph, isPhi := f[rankIdxF].(*ssa.Phi); isPhi && !idxOK {
+				// for i := 0; i < len(centroids); i++
+				if lc, isCall := countedLoopBound(ph).(*ssa.Call); isCall {
+					if b, isB := lc.Call.Value.(*ssa.Builtin); isB && b.Name() == "len" && c.S(lc.Call.Args[0]) == "P0."+idxField+".centroids" {
+						idxOK = true
+					}
+				}
+			}
+			if idxOK && strings.Contains(ds, "Distance.Calculate(") && strings.Contains(ds, "P0."+idxField+".centroids[range]") && strings.Contains(ds, "Distance.Preprocess(") {
 				okRank = true
 			}
 		}
@@ -945,7 +1191,23 @@ func rulePQ(r *Run, p string) {
 				if recv == "P0" {
 					side = "encode"
 				}
-				slices[side] = append(slices[side], norm(cc.S(sl.Low))+":"+norm(cc.S(sl.High)))
+				// the loop's index value is # whether it comes from a counted loop (the phi) or a range loop (phi+1)
+				var pr func(v ssa.Value) string
+				pr = func(v ssa.Value) string {
+					switch x := v.(type) {
+					case *ssa.BinOp:
+						if isRangeIndex(x) {
+							return "#"
+						}
+						return "(" + pr(x.X) + x.Op.String() + pr(x.Y) + ")"
+					case *ssa.Phi:
+						return "#"
+					case *ssa.Convert:
+						return pr(x.X)
+					}
+					return norm(cc.S(v))
+				}
+				slices[side] = append(slices[side], pr(sl.Low)+":"+pr(sl.High))
 			})
 		}
 		for _, fn := range sameRecvCallees(w, enc, 2) {
@@ -964,12 +1226,59 @@ func rulePQ(r *Run, p string) {
 			fmt.Sprintf("codeword k of a subspace is codebooks[m][k·dsub:(k+1)·dsub] in all %d functions", len(slices)), fmt.Sprintf("codebook slicing differs: %v", slices))
 		// lookup: Σ_m table[m][code[m]] with one m
 		okLook := false
+		nLook, partial := 0, ""
 		for _, fn := range sameRecvCallees(w, k.Single, 2) {
 			cc := NewCanon(w)
 			allInstrs(fn, func(in ssa.Instruction) {
 				ia, ok := in.(*ssa.IndexAddr)
 				if !ok {
 					return
+				}
+				// X[m][int(code[m])] with the very same index value m (counted or range loop)
+				if row, isLd := ia.X.(*ssa.UnOp); isLd && row.Op == token.MUL {
+					if ria, isIA := row.X.(*ssa.IndexAddr); isIA && tstr(ria.X.Type(), nil) == "[][]float32" {
+						var inner ssa.Value = ia.Index
+						for {
+							if cv, isCv := inner.(*ssa.Convert); isCv {
+								inner = cv.X
+								continue
+							}
+							break
+						}
+						if cld, isCld := inner.(*ssa.UnOp); isCld && cld.Op == token.MUL {
+							if cia, isCIA := cld.X.(*ssa.IndexAddr); isCIA && cia.Index == ria.Index {
+								if _, isPhi := ria.Index.(*ssa.Phi); isPhi || isRangeIndex(ria.Index) {
+									okLook = true
+								}
+							}
+						}
+						// every sub-space contributes: the row index is the variable of a loop that visits 0, 1, …, M−1
+						// (a range loop, or a count from 0 by 1 up to M / the number of tables / the code length)
+						isCodeLookup := false
+						if cld, isCld := inner.(*ssa.UnOp); isCld && cld.Op == token.MUL {
+							if cia, isCIA := cld.X.(*ssa.IndexAddr); isCIA {
+								if ts := tstr(cia.X.Type(), nil); ts == "[]uint8" || ts == "[]byte" {
+									isCodeLookup = true
+								}
+							}
+						}
+						if !isCodeLookup {
+							return
+						}
+						nLook++
+						full := isRangeIndex(ria.Index)
+						if ph, isPhi := ria.Index.(*ssa.Phi); isPhi && !full {
+							if init, bound, isCounted := countedLoop(ph); isCounted && init == 0 {
+								bs := cc.S(bound)
+								if strings.HasSuffix(bs, ".M") || strings.HasPrefix(bs, "len(") {
+									full = true
+								}
+							}
+						}
+						if !full {
+							partial = w.InstrPos(ia)
+						}
+					}
 				}
 				s := cc.S(ia)
 				// X[m][uint8→int(code[m])]
@@ -983,6 +1292,10 @@ func rulePQ(r *Run, p string) {
 			})
 		}
 		r.Check(okLook, p+".TABLE", kn+":lookup", w.Pos(k.Single.Pos())+" "+w.Name(k.Single), "distance = Σ_m table[m][code[m]] with the same m", "table lookup does not pair table[m] with code[m]")
+		if nLook > 0 {
+			r.Check(partial == "", p+".TABLE", kn+":lookup:every-subspace", w.Pos(k.Single.Pos())+" "+w.Name(k.Single), "the lookups are indexed by the variable of a loop over all M sub-spaces",
+				"the table lookup at "+partial+" is not indexed by the variable of a loop that counts 0, 1, …, M−1: some sub-space may not contribute to the distance")
+		}
 	}
 	// RESID (ivfpq)
 	if k, err := kindByName(w, "ivfpq"); err == nil {
@@ -1400,14 +1713,7 @@ func ruleSubspaceKernel(r *Run, rule string) {
 				if !ok {
 					return
 				}
-				ld, ok := ia.X.(*ssa.UnOp)
-				if !ok || ld.Op != token.MUL {
-					return
-				}
-				if _, ok := ld.X.(*ssa.IndexAddr); !ok {
-					return
-				}
-				if tstr(ld.X.(*ssa.IndexAddr).X.Type(), nil) != "[][]float32" {
+				if !isTableRow(ia.X) {
 					return
 				}
 				check(fn, st.Val, in, "table")
@@ -1417,4 +1723,38 @@ func ruleSubspaceKernel(r *Run, rule string) {
 	if n < 4 {
 		r.add(rule, "kernel:floor", "-", fmt.Sprintf("%d sub-space distance sites found, floor is 4 (encode and table of PQ and IVFPQ)", n), Floor)
 	}
+}
+
+// isTableRow: v is a row of a local two-level table: tables[m] loaded from a [][]float32, or a []float32 made in place and
+// stored into an element of a [][]float32 (`row := make([]float32, K); tables[m] = row; row[k] = d`).
+func isTableRow(v ssa.Value) bool {
+	if ld, ok := v.(*ssa.UnOp); ok && ld.Op == token.MUL {
+		if ia, ok := ld.X.(*ssa.IndexAddr); ok && tstr(ia.X.Type(), nil) == "[][]float32" {
+			return true
+		}
+		return false
+	}
+	if _, isSl := v.(*ssa.Slice); isSl {
+		// a row carved out of one backing array
+		if v.Referrers() != nil {
+			for _, ref := range *v.Referrers() {
+				if st, ok := ref.(*ssa.Store); ok && st.Val == v {
+					if ia, ok := st.Addr.(*ssa.IndexAddr); ok && tstr(ia.X.Type(), nil) == "[][]float32" {
+						return true
+					}
+				}
+			}
+		}
+		return false
+	}
+	if mk, ok := v.(*ssa.MakeSlice); ok && mk.Referrers() != nil {
+		for _, ref := range *mk.Referrers() {
+			if st, ok := ref.(*ssa.Store); ok && st.Val == ssa.Value(mk) {
+				if ia, ok := st.Addr.(*ssa.IndexAddr); ok && tstr(ia.X.Type(), nil) == "[][]float32" {
+					return true
+				}
+			}
+		}
+	}
+	return false
 }
